@@ -4858,6 +4858,7 @@ class Pack:
         base_type = type
         base_obj = obj
         delta_stack = []
+        seen_offsets = {offset}
         while base_type in DELTA_TYPES:
             prev_offset = base_offset
             if get_ref is None:
@@ -4885,10 +4886,13 @@ class Pack:
                 assert isinstance(base_type, int)
                 # base_offset_temp can be None for thin packs (external references)
                 base_offset = base_offset_temp
-                if base_offset == prev_offset:  # object is based on itself
+                if base_offset is not None and base_offset in seen_offsets:
+                    # object is based on itself, directly or through a cycle
                     raise UnresolvedDeltas([basename])
             else:
                 raise AssertionError(f"Unexpected delta type: {base_type}")
+            if base_offset is not None:
+                seen_offsets.add(base_offset)
             delta_stack.append((prev_offset, base_type, delta))
 
         # Now grab the base object (mustn't be a delta) and apply the
